@@ -192,6 +192,13 @@ func parseDNSSL(d rawDNSSL, maxInterval time.Duration) (*plugin.DNSSL, error) {
 			return nil, errors.New("domain names must not be empty")
 		}
 
+		// An empty label cannot be encoded: it is the root label which ends a
+		// name on the wire, so ".." would be advertised as an empty name and
+		// "a..b" as the two names "a" and "b".
+		if strings.HasPrefix(name, ".") || strings.Contains(name, "..") {
+			return nil, fmt.Errorf("domain name %q must not contain empty labels", d)
+		}
+
 		if _, ok := seen[name]; ok {
 			return nil, fmt.Errorf("domain name %q cannot be specified multiple times", d)
 		}
